@@ -9,6 +9,7 @@
   itself on short inputs and the recursion on long ones (thousands of samples).
 -/
 import ALV.Model.C20
+import ALV.Model.C20Call
 namespace ALV.C20
 variable {α : Type}
 
@@ -69,6 +70,48 @@ def amdfSpecRec (lag size : Nat) (zero : α) (xs : List α) : List α :=
   mavgSpecRec size zero ((lagDiffSpec lag zero xs).map absG)
 
 end mavg
+
+/-! ### envelope: the documented one-pole low-pass of `|x|` / `x²` -/
+section envelope
+
+/-- the one-pole recursion `y[n] = g·u[n] + r·y[n−1]`, `prev = y[−1]` -/
+def onePoleFrom [Add α] [Mul α] (g r : α) : α → List α → List α
+  | _, [] => []
+  | prev, u :: us => (g * u + r * prev) :: onePoleFrom g r (g * u + r * prev) us
+
+variable [TrigField α]
+open TrigField
+
+/-- the documented pole of `lowpass(cutoff)`: `R = x − sqrt(x² − 1)`, `x = 2 − cos(cutoff)` -/
+def poleRadius (c : α) : α :=
+  let x := ofInt 2 - cos c
+  x - sqrt (x * x - ofInt 1)
+
+/-- **envelope**: `y[n] = (1−R)·u[n] + R·y[n−1]`, `y[−1] = 0`, with `u = |x|` (`abs`) or `u = x²`
+    (`squared`; `rms` = its square root), `R` the pole of the cutoff, default cutoff `π/512`. -/
+def envelopeSpec (s : Option EnvStrategy) (cutoff : Option α) (xs : List α) : List α :=
+  let c := cutoff.getD (pi / ofInt 512)
+  let R := poleRadius c
+  match s.getD EnvStrategy.rms with
+  | .abs => onePoleFrom (ofInt 1 - R) R (ofInt 0) (xs.map abs)
+  | .squared => onePoleFrom (ofInt 1 - R) R (ofInt 0) (xs.map fun x => x * x)
+  | .rms => (onePoleFrom (ofInt 1 - R) R (ofInt 0) (xs.map fun x => x * x)).map sqrt
+
+/-- the one-pole recursion with a pole per sample: `y[n] = (1−R[n])·u[n] + R[n]·y[n−1]`; as long as
+    both lists last -/
+def onePoleVarFrom : α → List α → List α → List α
+  | prev, r :: rs, u :: us =>
+    ((ofInt 1 - r) * u + r * prev) :: onePoleVarFrom ((ofInt 1 - r) * u + r * prev) rs us
+  | _, _, _ => []
+
+/-- **envelope with a time-varying cutoff** `c[n]`: the pole follows the cutoff sample by sample -/
+def envelopeVarSpec (s : Option EnvStrategy) (cs xs : List α) : List α :=
+  match s.getD EnvStrategy.rms with
+  | .abs => onePoleVarFrom (ofInt 0) (cs.map poleRadius) (xs.map abs)
+  | .squared => onePoleVarFrom (ofInt 0) (cs.map poleRadius) (xs.map fun x => x * x)
+  | .rms => (onePoleVarFrom (ofInt 0) (cs.map poleRadius) (xs.map fun x => x * x)).map sqrt
+
+end envelope
 
 /-! ### clip: `min(high, max(low, x))`, a limit that is `none` does not apply -/
 section clip
@@ -197,5 +240,11 @@ def zcrossSpecRec (h fs : Rat) (xs : List Rat) := C20.zcrossSpecRec h fs xs
 def unwrapSpecRec (md step : Rat) (xs : List Rat) := C20.unwrapSpecRec fl md step xs
 
 end R
+
+namespace F
+def envelopeSpec (s : Option EnvStrategy) (cutoff : Option Float) (xs : List Float) :=
+  C20.envelopeSpec s cutoff xs
+def envelopeVarSpec (s : Option EnvStrategy) (cs xs : List Float) := C20.envelopeVarSpec s cs xs
+end F
 
 end ALV.C20
